@@ -66,6 +66,9 @@ PROPS = {}
 def prop(pid, explanation, decided, not_decided, rules, assumptions=None):
     decided = list(decided)
     for entry in rules:
+        if entry is G_CORE[0] and 'scheduler core' not in ' '.join(decided):
+            decided.append('the necessary conditions of the scheduler core that this property presupposes (one runner at a time, token released and handed on, wakers and pool resume parked queues, '
+                           'waiters notified, dead threads reaped, lock discipline, reviewed transition relation and effect order: group CORE in dsa/props.py)')
         if getattr(entry[0], '__name__', '') == 'tr_base':
             decided.append('the transition relation extracted from %s is the reviewed one: no transition added, none removed (TR-base; regression rule against dsa/tr_baseline.json)'
                            % (', '.join(entry[2]) if len(entry) > 2 and entry[2] else 'every function that writes the queue state'))
@@ -83,6 +86,19 @@ COMMON = ('Static structural rules decided on the type-checked program (rustc bu
 # Rule groups for dependent properties: a property that is *derived* from another (DESIGN §5) runs that property's necessary conditions too.
 G_EXCL = [(RP.tok_exec, None), (RP.pa_rules, {'PA-excl', 'PA-stuck', 'PA'}), (RP.tok_requeue, None), (RQ.qd_queue, None), (RP.tr_immediate, None), (RO.c05_drop, None)]
 G_POOL = [(RO.c03_dormant, None), (RO.c10_fetch, None), (RO.c10_thread, None), (RQ.qd_schedule, None)]
+# The scheduler core: every property of an object rests on its queue being run by exactly one runner at a time and on that runner, the
+# wakers and the pool handing the queue on correctly.  A change that breaks one of these necessary conditions breaks the progress or the
+# exclusion that the other properties presuppose, so every scheduler-dependent property runs the whole group (seeding rounds 2-6: a third
+# of the seeded changes were reported by a neighbouring property's check only, until the target's check ran the same rules).
+G_CORE = [(RP.tok_exec, None), (RP.tok_leak, None), (RP.tok_resched, None), (RP.tok_pending, None), (RP.tok_requeue, None), (RP.pa_rules, None),
+          (RP.park_wake, None), (RP.tr_dead, None), (RP.tr_roles, None), (RP.tr_immediate, None), (RP.tr_sibling, None), (RP.tr_defer, None), (RP.tr_base, None),
+          (RQ.qd_queue, None), (RQ.qd_schedule, None), (RQ.qd_wake_blocked, None), (RQ.qd_run, None), (RQ.qd_once, None),
+          (RG.tok_guard, None), (RG.aq_drop, None), (RG.c15_reap, None), (RG.c15_refuse, None),
+          (RL.try_rule, None), (RL.lo, None), (RL.bl, None),
+          (RO.c03_dormant, None), (RO.c10_fetch, None), (RO.c10_thread, None), (RO.c10_spawn, None), (RO.c02_append, None), (RO.c06_drain, None),
+          (RO.c07_own, None), (RO.c07_signal, None), (RO.c08, None, ['result-after-scheduler', 'polls-with-callers-context', 'drop-order']),
+          (RO.free_delegates, None), (RO.rs_strength, None, ['SchedulerCore']), (RW.lw_owner, None), (RU.ua_leak, None),
+          (RE.eo, None, ['^SchedulerCore::', '^<SchedulerCore::', '^JobQueue::', '^<JobQueue::', '^Scheduler::', '^<Scheduler::', '^<WakeQueue', '^<WakeThread', '^<SchedulerFuture', '^SchedulerFuture', '^<ActiveQueue', '^<UnsafeJob', '^FutureJob::', '^SchedulerThread::'])]
 G_ORDER = [(RO.c02_append, None), (RO.free_delegates, None, ['|delegates']), (RQ.qd_queue, None), (RP.tr_immediate, None), (RP.tr_sibling, None, ['sync']), (RP.tok_requeue, None),
            (RP.pa_rules, {'PA-excl', 'PA'}), (RP.tok_exec, None)]
 
@@ -96,7 +112,7 @@ prop('C01', COMMON +
       '&mut T only inside a job of the same object (UA-confine)', 'future_sync user future only in its slot (ORD-C08)'],
      ["that the abstraction's transitions are the only way threads interleave (trusted: all accesses go through Mutex<JobQueueCore>)",
       "overlap of a completed future_sync user future's destructor with the next operation"],
-     [(RP.tok_exec, None), (RP.pa_rules, {'PA-excl', 'PA-stuck', 'PA'}), (RP.tok_requeue, None), (RQ.qd_queue, None), (RP.tr_immediate, None), (RU.ua_confine, None), (RO.c08, None), (RP.tr_base, None)])
+     [(RP.tok_exec, None), (RP.pa_rules, {'PA-excl', 'PA-stuck', 'PA'}), (RP.tok_requeue, None), (RQ.qd_queue, None), (RP.tr_immediate, None), (RU.ua_confine, None), (RO.c08, None), (RP.tr_base, None)] + G_CORE)
 
 prop('C02', COMMON +
      'Decided: every scheduling call appends its job under the queue lock before it returns, in its own body (ORD-C02-append); the job list is only appended at the back, taken from the front, '
@@ -113,7 +129,7 @@ prop('C03', COMMON +
       'Pending implies in the schedule and a thread asked (TOK-pending)', 'dormant handshake and fetch loop (ORD-C03-dormant, ORD-C10-fetch, TRY)', 'no job dropped or run twice (QD-*, TOK-requeue)', 'blocked sync callers stay registered until they leave and are told on every reschedule (QD-waiters)', 'wakers resume parked queues (PARK-wake)'],
      ['that a woken pool thread is eventually scheduled by the OS', 'quiescence of a whole program'],
      [(RP.tok_leak, None), (RP.pa_rules, {'PA-stuck', 'PA'}), (RP.tok_resched, None), (RP.tok_pending, None), (RP.tok_requeue, None), (RQ.qd_queue, None), (RQ.qd_schedule, None), (RQ.qd_once, None),
-      (RL.try_rule, None), (RO.c03_dormant, None), (RO.c10_fetch, None), (RP.park_wake, None), (RQ.qd_wake_blocked, None), (RP.tr_roles, None), (RP.tr_dead, None), (RQ.qd_run, None), (RO.c10_thread, None), (RO.rs_strength, None, ['SchedulerCore']), (RU.ua_leak, None), (RE.eo, None, ['^SchedulerCore::', '^<SchedulerCore::', '^JobQueue::', '^<JobQueue::', '^Scheduler::schedule_job_desync', '^<Scheduler::schedule_job_desync', '^WakeQueue', '^<WakeQueue', '^WakeThread', '^<WakeThread', '^SchedulerThread::', '^<SchedulerThread::', '^FutureJob::', '^<FutureJob::', 'floor', 'baseline']), (RP.tr_base, None), (RE.eo, None, ['^JobQueue::', '^<JobQueue::', '^Scheduler::schedule_job_desync', '^<Scheduler::schedule_job_desync']), (RO.c08, None, ['result-after-scheduler'])])
+      (RL.try_rule, None), (RO.c03_dormant, None), (RO.c10_fetch, None), (RP.park_wake, None), (RQ.qd_wake_blocked, None), (RP.tr_roles, None), (RP.tr_dead, None), (RQ.qd_run, None), (RO.c10_thread, None), (RO.rs_strength, None, ['SchedulerCore']), (RU.ua_leak, None), (RE.eo, None, ['^SchedulerCore::', '^<SchedulerCore::', '^JobQueue::', '^<JobQueue::', '^Scheduler::schedule_job_desync', '^<Scheduler::schedule_job_desync', '^WakeQueue', '^<WakeQueue', '^WakeThread', '^<WakeThread', '^SchedulerThread::', '^<SchedulerThread::', '^FutureJob::', '^<FutureJob::', 'floor', 'baseline']), (RP.tr_base, None), (RE.eo, None, ['^JobQueue::', '^<JobQueue::', '^Scheduler::schedule_job_desync', '^<Scheduler::schedule_job_desync']), (RO.c08, None, ['result-after-scheduler'])] + G_CORE + G_CORE)
 
 prop('C04', COMMON +
      'Decided: the sync strategy is chosen in one critical section and waits only when somebody owns or will wake the queue (TR-defer); the condition-variable handshake of the blocked caller (CV1, CV2); '
@@ -123,7 +139,7 @@ prop('C04', COMMON +
       'own result, after completion (ORD-C04-result, UA-wait)', 'no lock-order cycle, no blocking/foreign code under an internal lock (LO, BL)', 'caller-side execution holds the token (TOK-exec)', 'caller-side parking: wake latched while polling, consumed before parking, unpark + re-check loop (PARK-wake, ORD-C06-drain)'],
      ['termination of the operations ahead; OS fairness', '"from inside a job of a different Desync" is derived from BL (no internal lock is held while a job runs)'],
      [(RP.tr_defer, None, ['sync']), (RL.cv, None), (RQ.qd_wake_blocked, None), (RQ.qd_run, None), (RP.tr_roles, None), (RP.tr_dead, None), (RO.free_delegates, None, ['sync|']), (RG.c15_reap, None), (RO.c08, None, ['result-after-scheduler']), (RO.c04_steal, None), (RO.c04_result, None), (RU.ua_wait, None), (RL.lo, None), (RL.bl, None), (RL.lock_classes, None), (RP.tok_exec, None), (RP.tok_resched, None),
-      (RP.park_wake, None, ['WakeThread', 'run_one_job_now']), (RO.c06_drain, None, ['run_one_job_now']), (RE.eo, None, ['^Scheduler::sync', '^<Scheduler::sync', '^UnsafeJob', '^<UnsafeJob', '^SchedulerCore::reschedule_queue', '^<SchedulerCore::reschedule_queue', '^JobQueue::run_one_job_now', '^<JobQueue::run_one_job_now', '^sync|']), (RP.tr_base, None, ['^Scheduler::sync', '^<Scheduler::sync', '^SchedulerCore::claim_pending_queue', '^<SchedulerCore::claim_pending_queue', '^SchedulerCore::reschedule_queue', '^<SchedulerCore::reschedule_queue', '^JobQueue::run_one_job_now', '^<JobQueue::run_one_job_now', '^WakeThread', '^<WakeThread'])])
+      (RP.park_wake, None, ['WakeThread', 'run_one_job_now']), (RO.c06_drain, None, ['run_one_job_now']), (RE.eo, None, ['^Scheduler::sync', '^<Scheduler::sync', '^UnsafeJob', '^<UnsafeJob', '^SchedulerCore::reschedule_queue', '^<SchedulerCore::reschedule_queue', '^JobQueue::run_one_job_now', '^<JobQueue::run_one_job_now', '^sync|']), (RP.tr_base, None, ['^Scheduler::sync', '^<Scheduler::sync', '^SchedulerCore::claim_pending_queue', '^<SchedulerCore::claim_pending_queue', '^SchedulerCore::reschedule_queue', '^<SchedulerCore::reschedule_queue', '^JobQueue::run_one_job_now', '^<JobQueue::run_one_job_now', '^WakeThread', '^<WakeThread'])] + G_CORE)
 
 prop('C05', COMMON +
      'Decided: Desync::drop performs a final sync on its own queue on every path and frees the value inside that job (ORD-C05-drop); freed nowhere else, not duplicable (UA-free); every other use of the pointer is a job '
@@ -131,14 +147,14 @@ prop('C05', COMMON +
      ['drop queues a final sync job that frees the value (ORD-C05-drop)', 'freed only there; Desync/DataRef not duplicable (UA-free)', 'pointer used only in jobs of the same queue (UA-confine)',
       'final job ordered after queued work: all of C02\'s rules (ORD-C02-append, QD-queue, TR-immediate, TOK-requeue, PA-excl)', 'the final sync waits for its job (UA-wait)', 'pipes cannot schedule on a dead object (ORD-C05-weak)'],
      ['absence of use-after-free on every interleaving as such', '"blocks until" is derived from the C04 rules'],
-     [(RO.c05_drop, None), (RU.ua_free, None), (RU.ua_confine, None), (RO.c05_weak, None), (RU.ua_wait, None), (RE.eo, None, ['^Desync as core::ops::drop::Drop>', '^<Desync as core::ops::drop::Drop>', '^Scheduler::sync', '^<Scheduler::sync']), (RP.tr_base, None, ['^Scheduler::sync', '^<Scheduler::sync']), (RO.c08, None, ['result-after-scheduler'])] + G_ORDER)
+     [(RO.c05_drop, None), (RU.ua_free, None), (RU.ua_confine, None), (RO.c05_weak, None), (RU.ua_wait, None), (RE.eo, None, ['^Desync as core::ops::drop::Drop>', '^<Desync as core::ops::drop::Drop>', '^Scheduler::sync', '^<Scheduler::sync']), (RP.tr_base, None, ['^Scheduler::sync', '^<Scheduler::sync']), (RO.c08, None, ['result-after-scheduler'])] + G_ORDER + G_CORE)
 
 prop('C06', COMMON +
      'Decided: from every parked configuration reachable in the extracted protocol, wakers and claimers alone lead back to a running queue (PA-wake); each waker calls the resume action that matches the parked state it finds, '
      'and a queue parked for a polling task is offered to and accepted by the pool (PARK-wake); the two queue wakers agree on the states both handle (TR-sibling); a job that returned Pending is back on the queue before the queue is parked (TOK-requeue).',
      ['every parked configuration is resumable by waker/claimer transitions (PA-wake)', 'wakers call the matching resume action; pool takes over WaitingForPoll (PARK-wake)', 'poll-side drain order, DrainWaker latch table, DoubleWaker, park re-check loop (ORD-C06-drain)', 'wakers agree on Running and WaitingForWake (TR-sibling)', 'requeue before parking (TOK-requeue)', 'the polling task stores its waker before it parks the queue (LW-owner)'],
      ['"for every position of the wake-up" as executions', 'futures that break the waker contract'],
-     [(RP.pa_rules, {'PA-wake', 'PA'}), (RP.park_wake, None), (RO.c06_drain, None), (RP.tr_sibling, None, ['WakeQueue/WakeThread']), (RP.tok_requeue, None), (RW.lw_owner, None), (RP.tr_roles, None), (RO.c07_own, None, ['holds-queue-strongly']), (RO.free_delegates, None, ['FutureId']), (RE.eo, None, ['^SchedulerFuture', '^<SchedulerFuture', '^WakeQueue', '^<WakeQueue', '^WakeThread', '^<WakeThread', '^JobQueue::drain', '^<JobQueue::drain', '^JobQueue::run_one_job_now', '^<JobQueue::run_one_job_now']), (RP.tr_base, None, ['^WakeQueue', '^<WakeQueue', '^WakeThread', '^<WakeThread', '^JobQueue::', '^<JobQueue::', '^SchedulerFuture', '^<SchedulerFuture', '^SchedulerCore::next_to_run', '^<SchedulerCore::next_to_run'])])
+     [(RP.pa_rules, {'PA-wake', 'PA'}), (RP.park_wake, None), (RO.c06_drain, None), (RP.tr_sibling, None, ['WakeQueue/WakeThread']), (RP.tok_requeue, None), (RW.lw_owner, None), (RP.tr_roles, None), (RO.c07_own, None, ['holds-queue-strongly']), (RO.free_delegates, None, ['FutureId']), (RE.eo, None, ['^SchedulerFuture', '^<SchedulerFuture', '^WakeQueue', '^<WakeQueue', '^WakeThread', '^<WakeThread', '^JobQueue::drain', '^<JobQueue::drain', '^JobQueue::run_one_job_now', '^<JobQueue::run_one_job_now']), (RP.tr_base, None, ['^WakeQueue', '^<WakeQueue', '^WakeThread', '^<WakeThread', '^JobQueue::', '^<JobQueue::', '^SchedulerFuture', '^<SchedulerFuture', '^SchedulerCore::next_to_run', '^<SchedulerCore::next_to_run'])] + G_CORE)
 
 prop('C07', COMMON +
      'Decided: result and waker of a scheduler future live under one mutex with check-and-register / set-and-take atomic (LW1, LW2; the owner\'s unconditional stores are justified by LW-owner); the job signals once, after its operation completed, '
@@ -147,7 +163,7 @@ prop('C07', COMMON +
      ['check-and-register / set-and-take atomic (LW1, LW2, LW-owner)', 'signal once, after completion (ORD-C07-signal)', 'job owned by the queue (ORD-C07-own)', '.sync() waits on the queue (ORD-C07-syncwait)', 'poll never defers on Idle/Pending (TR-defer)',
       'abandoned poll-side drain is taken over; the real waker is installed only after the queue is parked (PARK-wake, ORD-C06-drain)', 'poll-side drain holds and releases the token (TOK-exec, TOK-leak)', 'the awaiting task is woken with no internal lock held (BL)'],
      ['equality of the delivered value with what the user closure computed', 'ordering of sibling polls as executions'],
-     [(RW.lw, None, ['|waker']), (RW.lw_owner, None), (RW.lw_cancel, None), (RW.lw_register, None, ['SchedulerFuture']), (RO.c07_signal, None), (RO.c07_own, None), (RO.c07_syncwait, None), (RP.tr_defer, None, ['SchedulerFuture::poll']), (RP.park_wake, None), (RO.c06_drain, None, ['drain_queue', 'DW-table', 'DoubleWaker']), (RP.tok_exec, None), (RP.tok_leak, None, ['SchedulerFuture']), (RL.bl, None), (RQ.qd_run, None, ['FutureJob', 'UnsafeJob::run']), (RO.free_delegates, None, ['future_desync|', 'FutureId']), (RU.ua_leak, None), (RE.eo, None, ['^SchedulerFuture', '^<SchedulerFuture', '^Desync::future_desync', '^<Desync::future_desync', '^future_desync', '^<future_desync', '^FutureJob::', '^<FutureJob::']), (RP.tr_base, None, ['^SchedulerFuture', '^<SchedulerFuture', '^SchedulerCore::next_to_run', '^<SchedulerCore::next_to_run'])] + G_POOL)
+     [(RW.lw, None, ['|waker']), (RW.lw_owner, None), (RW.lw_cancel, None), (RW.lw_register, None, ['SchedulerFuture']), (RO.c07_signal, None), (RO.c07_own, None), (RO.c07_syncwait, None), (RP.tr_defer, None, ['SchedulerFuture::poll']), (RP.park_wake, None), (RO.c06_drain, None, ['drain_queue', 'DW-table', 'DoubleWaker']), (RP.tok_exec, None), (RP.tok_leak, None, ['SchedulerFuture']), (RL.bl, None), (RQ.qd_run, None, ['FutureJob', 'UnsafeJob::run']), (RO.free_delegates, None, ['future_desync|', 'FutureId']), (RU.ua_leak, None), (RE.eo, None, ['^SchedulerFuture', '^<SchedulerFuture', '^Desync::future_desync', '^<Desync::future_desync', '^future_desync', '^<future_desync', '^FutureJob::', '^<FutureJob::']), (RP.tr_base, None, ['^SchedulerFuture', '^<SchedulerFuture', '^SchedulerCore::next_to_run', '^<SchedulerCore::next_to_run'])] + G_POOL + G_CORE)
 
 prop('C08', COMMON +
      'Decided (ORD-C08): the two oneshot channels of future_sync are split so that the slot job holds the queue-ready sender and the task-finished receiver and the SyncFuture the opposite ends; the slot job announces, waits, then signals, also when cancelled; '
@@ -155,42 +171,42 @@ prop('C08', COMMON +
      'SyncFuture drops the user future before the completion sender and has no Drop impl; the slot is reserved at call time (ORD-C02-append).',
      ['channel pairing, slot job order, SyncFuture state order, field drop order (ORD-C08)', 'slot reserved at call time (ORD-C02-append)', 'signal after completion, once (ORD-C07-signal)', 'the cancel wake-up reaches the queue even when it is being drained by a polling task (ORD-C06-drain, PARK-wake)'],
      ['deadlock-freedom of nested awaits as executions', 'that a mid-operation drop happens "before any later operation begins" follows from drop order + slot job order but is a statement about executions'],
-     [(RO.c08, None), (RO.c02_append, None), (RO.c07_signal, None), (RO.c06_drain, None, ['drain_queue', 'DW-table', 'DoubleWaker']), (RP.park_wake, None), (RL.bl, None), (RO.free_delegates, None, ['future_sync|']), (RU.ua_leak, None), (RE.eo, None, ['^SyncFuture', '^<SyncFuture', '^Scheduler::future_sync', '^<Scheduler::future_sync', '^Desync::future_sync', '^<Desync::future_sync', '^future_sync', '^<future_sync'])] + G_EXCL + G_POOL)
+     [(RO.c08, None), (RO.c02_append, None), (RO.c07_signal, None), (RO.c06_drain, None, ['drain_queue', 'DW-table', 'DoubleWaker']), (RP.park_wake, None), (RL.bl, None), (RO.free_delegates, None, ['future_sync|']), (RU.ua_leak, None), (RE.eo, None, ['^SyncFuture', '^<SyncFuture', '^Scheduler::future_sync', '^<Scheduler::future_sync', '^Desync::future_sync', '^<Desync::future_sync', '^future_sync', '^<future_sync'])] + G_EXCL + G_POOL + G_CORE)
 
 prop('C09', COMMON +
      'Decided: a Busy outcome of try_sync has written nothing (every path to Err(Busy) leaves the token untouched: TOK-leak); try_sync never reaches a blocking primitive except the bounded join of finished threads (ORD-C09-noblock); '
      'it runs its closure only from (Idle, queue empty), exactly like sync\'s immediate row (TR-immediate, TR-sibling); after the immediate run the queue goes Idle and is rescheduled (TOK-resched); no running state without a runner is reachable (PA-stuck).',
      ['Busy has written nothing (TOK-leak on try_sync)', 'never blocks (ORD-C09-noblock)', 'immediate only on Idle and empty (TR-immediate, TR-sibling)', 'Idle then reschedule_queue after the run (TOK-resched)', 'no ownerless running state (PA-stuck)', 'a closure that panics in the immediate run leaves the queue Panicked, not Running for ever (TOK-guard); releases go to Idle, never to a parked state or to Panicked (TR-roles, TR-dead)'],
      ['"succeeds once quiescent" as a statement about time'],
-     [(RP.tok_leak, None), (RO.c09_noblock, None), (RP.tr_immediate, None), (RP.tr_sibling, None, ['try_sync']), (RP.tok_resched, None), (RP.pa_rules, {'PA-stuck', 'PA'}), (RP.tok_exec, None), (RP.tr_roles, None), (RP.tr_dead, None), (RG.tok_guard, None), (RO.free_delegates, None, ['try_sync|']), (RL.try_rule, None), (RE.eo, None, ['^Scheduler::try_sync', '^<Scheduler::try_sync', '^Scheduler::sync_immediate', '^<Scheduler::sync_immediate', '^try_sync', '^<try_sync']), (RP.tr_base, None, ['^Scheduler::try_sync', '^<Scheduler::try_sync', '^Scheduler::sync_immediate', '^<Scheduler::sync_immediate'])])
+     [(RP.tok_leak, None), (RO.c09_noblock, None), (RP.tr_immediate, None), (RP.tr_sibling, None, ['try_sync']), (RP.tok_resched, None), (RP.pa_rules, {'PA-stuck', 'PA'}), (RP.tok_exec, None), (RP.tr_roles, None), (RP.tr_dead, None), (RG.tok_guard, None), (RO.free_delegates, None, ['try_sync|']), (RL.try_rule, None), (RE.eo, None, ['^Scheduler::try_sync', '^<Scheduler::try_sync', '^Scheduler::sync_immediate', '^<Scheduler::sync_immediate', '^try_sync', '^<try_sync']), (RP.tr_base, None, ['^Scheduler::try_sync', '^<Scheduler::try_sync', '^Scheduler::sync_immediate', '^<Scheduler::sync_immediate'])] + G_CORE)
 
 prop('C10', COMMON +
      'Decided: no scheduler-wide lock is held at any job-execution or blocking site (BL); the lock-order graph is acyclic (LO); a ready queue goes to a dormant thread or to a newly spawned one below the maximum, then scheduling is retried (ORD-C10-spawn); '
      'pool threads keep pulling until the schedule is empty (ORD-C10-fetch) and the dormant handshake cannot misread a transient lock hold (ORD-C03-dormant, TRY).',
      ['no scheduler-wide lock held while a job runs or a thread blocks (BL)', 'lock order acyclic (LO)', 'dormant else spawn then retry (ORD-C10-spawn)', 'raising the maximum schedules until nothing more can be scheduled (ORD-C10-raise)', 'fetch loop and dormant handshake (ORD-C10-fetch, ORD-C03-dormant, TRY)', 'dead threads are reaped before the table is searched or counted, so `len < max` counts live threads (ORD-C15-reap)'],
      ['actual parallel progress (liveness); the claim is limited to these structural conditions'],
-     [(RL.bl, None), (RL.lo, None), (RO.c10_spawn, None), (RO.c10_fetch, None), (RO.c10_thread, None), (RQ.qd_schedule, None), (RO.c10_raise, None), (RO.c03_dormant, None), (RL.try_rule, None), (RL.lock_classes, None), (RG.c15_reap, None), (RE.eo, None, ['^SchedulerCore::schedule_', '^<SchedulerCore::schedule_', '^SchedulerCore::remove_finished_threads', '^<SchedulerCore::remove_finished_threads', '^SchedulerThread::', '^<SchedulerThread::'])])
+     [(RL.bl, None), (RL.lo, None), (RO.c10_spawn, None), (RO.c10_fetch, None), (RO.c10_thread, None), (RQ.qd_schedule, None), (RO.c10_raise, None), (RO.c03_dormant, None), (RL.try_rule, None), (RL.lock_classes, None), (RG.c15_reap, None), (RE.eo, None, ['^SchedulerCore::schedule_', '^<SchedulerCore::schedule_', '^SchedulerCore::remove_finished_threads', '^<SchedulerCore::remove_finished_threads', '^SchedulerThread::', '^<SchedulerThread::'])] + G_CORE)
 
 prop('C11', COMMON +
      'Decided (ORD-C11): the pipe\'s poll function only runs inside a future_desync job of the target; in pipe_in each Ready(Some(item)) is handed to the processing function and awaited to completion before the next poll, Pending keeps the pipe with the pipe\'s own waker, '
      'end of stream ends it and releases the poll function; the context holds only a Weak target and no closure captures a strong reference (ORD-C05-weak); no guard across awaits, no foreign code under internal locks (AW, BL).',
      ['processing only inside a job of the target; one item at a time, in order (ORD-C11)', 'weak reference only; release on end/dead target (ORD-C05-weak, ORD-C11)', 'no guard across await; no user code under internal locks (AW, BL)'],
      ['arrival patterns and drop points as executions', 'every wake leads to one poll job is derived from the C03 rules + PipeWaker taking its context once'],
-     [(RO.c11, None), (RO.c11_sleep, None), (RO.c05_weak, None), (RO.rs_strength, None, ['PipeWaker']), (RL.aw, None), (RL.bl, None), (RO.c08, None, ['result-after-scheduler'])] + G_EXCL + G_ORDER)
+     [(RO.c11, None), (RO.c11_sleep, None), (RO.c05_weak, None), (RO.rs_strength, None, ['PipeWaker']), (RL.aw, None), (RL.bl, None), (RO.c08, None, ['result-after-scheduler'])] + G_EXCL + G_ORDER + G_CORE)
 
 prop('C12', COMMON +
      'Decided: consumer and back-pressure handshakes register/notify atomically (LW1, LW2 on notify and backpressure_release_notify); the output buffer is appended by the producer only and taken from the front by the consumer only (QD-pending); '
      'exactly one push per processed item after its future completed, closed only at end of input, end reported only when empty and closed (ORD-C12); wakers are woken outside the lock, no guard lives across an await (BL, AW).',
      ['consumer and back-pressure handshakes (LW1, LW2)', 'buffer discipline (QD-pending)', 'one output per input, in order, then end (ORD-C12)', 'wakes outside the lock, no guard across await (BL, AW)'],
      ['"for every buffer depth and interleaving" as executions', "depth 0 is outside the property's range"],
-     [(RW.lw, None, ['|notify#', '|notify<-', 'backpressure_release_notify', 'floor:notify:', 'floor:backpressure']), (RW.lw_register, None, ['PipeStream']), (RQ.qd_pending, None), (RO.c12, None), (RO.c11_sleep, None, ['pipe|']), (RO.c11, None, ['PipeWaker']), (RO.rs_strength, None, ['PipeWaker']), (RL.bl, None), (RL.aw, None), (RE.eo, None, ['^PipeStream', '^<PipeStream', '^PipeContext', '^<PipeContext'])])
+     [(RW.lw, None, ['|notify#', '|notify<-', 'backpressure_release_notify', 'floor:notify:', 'floor:backpressure']), (RW.lw_register, None, ['PipeStream']), (RQ.qd_pending, None), (RO.c12, None), (RO.c11_sleep, None, ['pipe|']), (RO.c11, None, ['PipeWaker']), (RO.rs_strength, None, ['PipeWaker']), (RL.bl, None), (RL.aw, None), (RE.eo, None, ['^PipeStream', '^<PipeStream', '^PipeContext', '^<PipeContext'])] + G_CORE)
 
 prop('C13', COMMON +
      'Decided (ORD-C13): the resumer\'s sender and the future the suspending job waits on are the two ends of one channel, the resumer is handed out inside the job before waiting, the suspension is an ordinary future_desync job (so every token and ordering rule applies to it), '
      'QueueResumer has no Drop impl and resume consumes it. "Later work waits, then continues in order" is derived from the C01/C02/C06 rules for a job that stays Pending (TOK-requeue, QD-queue, PARK-wake).',
      ['suspend job shape (ORD-C13)', 'a Pending job keeps the queue and is resumed by its waker (TOK-requeue, QD-queue, PARK-wake)', 'sync callers that pile up behind a suspension each stay registered for the wake-up (QD-waiters)'],
      ['all dynamic content: this is the thinnest claim; order of held operations after resumption is derived, not separately decided'],
-     [(RO.c13, None), (RP.park_wake, None), (RQ.qd_wake_blocked, None), (RU.ua_leak, None), (RE.eo, None, ['^Scheduler::suspend', '^<Scheduler::suspend', '^Scheduler::sync_background', '^<Scheduler::sync_background', '^SchedulerCore::reschedule_queue', '^<SchedulerCore::reschedule_queue']), (RP.tr_base, None, ['^JobQueue::drain', '^<JobQueue::drain', '^WakeQueue', '^<WakeQueue', '^WakeThread', '^<WakeThread', '^SchedulerCore::reschedule_queue', '^<SchedulerCore::reschedule_queue', '^Scheduler::sync', '^<Scheduler::sync'])] + G_ORDER + G_POOL)
+     [(RO.c13, None), (RP.park_wake, None), (RQ.qd_wake_blocked, None), (RU.ua_leak, None), (RE.eo, None, ['^Scheduler::suspend', '^<Scheduler::suspend', '^Scheduler::sync_background', '^<Scheduler::sync_background', '^SchedulerCore::reschedule_queue', '^<SchedulerCore::reschedule_queue']), (RP.tr_base, None, ['^JobQueue::drain', '^<JobQueue::drain', '^WakeQueue', '^<WakeQueue', '^WakeThread', '^<WakeThread', '^SchedulerCore::reschedule_queue', '^<SchedulerCore::reschedule_queue', '^Scheduler::sync', '^<Scheduler::sync'])] + G_ORDER + G_POOL + G_CORE)
 
 prop('C14', COMMON +
      'Decided: the four lifetime-erasure obligations — a sync caller does not return before its lifetime-erased job has been run and dropped (UA-wait), the payload pointer is dereferenced only inside jobs of the object\'s own queue (UA-confine), '
@@ -198,7 +214,7 @@ prop('C14', COMMON +
      'every unsafe operation is of an audited kind (UA-sites). Thorough tier adds compile-fail witnesses with compiling twins (W).',
      ['sync waits for its erased job (UA-wait)', 'pointer confined to jobs of the own queue (UA-confine)', 'the future built from &mut T in future_sync is destroyed before the slot is released (UA-borrow)', 'freed once, in the final job, ordered last (UA-free, ORD-C05-drop, TR-immediate)', 'Send/\'static bounds (UA-bounds, W)', 'unsafe sites enumerated (UA-sites)', 'a queue whose runner unwound may still hold lifetime-erased jobs pointing into the unwound frame: it is marked Panicked (TOK-guard) and never run again (TR-dead, ORD-C15-refuse)'],
      ['memory safety of executions as such', 'soundness of `Desync: Sync` rests on exclusion and on drop being ordered last: the C01/C02 rules are run as part of this check, their undecided clauses remain undecided here'],
-     [(RU.ua_wait, None), (RU.ua_confine, None), (RU.ua_borrow, None), (RU.ua_free, None), (RU.ua_leak, None), (RO.c05_drop, None), (RO.c08, None, ['drop-order']), (RU.ua_bounds, None), (RU.ua_sites, None), (RP.tr_dead, None), (RG.c15_refuse, None), (RG.tok_guard, None)] + G_EXCL + G_ORDER)
+     [(RU.ua_wait, None), (RU.ua_confine, None), (RU.ua_borrow, None), (RU.ua_free, None), (RU.ua_leak, None), (RO.c05_drop, None), (RO.c08, None, ['drop-order']), (RU.ua_bounds, None), (RU.ua_sites, None), (RP.tr_dead, None), (RG.c15_refuse, None), (RG.tok_guard, None)] + G_EXCL + G_ORDER + G_CORE)
 
 prop('C15', COMMON +
      'Decided: an ActiveQueue guard is live in some frame of every call path to every execution site, so unwinding marks the queue (TOK-guard); its Drop marks only while panicking (AQ-drop); nothing leaves Panicked (TR-dead); '
@@ -206,7 +222,7 @@ prop('C15', COMMON +
      'nothing on the pool-thread path catches the unwind (ORD-C15-unwind); no user code runs under a scheduler mutex, so a panic cannot poison one (BL).',
      ['guard covers every execution site (TOK-guard, AQ-drop)', 'nothing leaves Panicked (TR-dead)', 'entry points refuse a panicked queue (ORD-C15-refuse)', 'dead threads reaped and replaced (ORD-C15-reap, ORD-C15-unwind)', 'no user code under scheduler locks (BL)', 'the guard takes the queue lock unconditionally (TRY: no try_lock on internal locks)'],
      ['"other objects remain fully usable" as executions'],
-     [(RG.tok_guard, None), (RG.aq_drop, None), (RP.tr_dead, None), (RG.c15_refuse, None), (RG.c15_reap, None), (RO.c15_unwind, None), (RL.bl, None), (RL.try_rule, None), (RP.tr_base, None, ['^ActiveQueue', '^<ActiveQueue', '^Scheduler::sync_no_panic', '^<Scheduler::sync_no_panic'])])
+     [(RG.tok_guard, None), (RG.aq_drop, None), (RP.tr_dead, None), (RG.c15_refuse, None), (RG.c15_reap, None), (RO.c15_unwind, None), (RL.bl, None), (RL.try_rule, None), (RP.tr_base, None, ['^ActiveQueue', '^<ActiveQueue', '^Scheduler::sync_no_panic', '^<Scheduler::sync_no_panic'])] + G_CORE)
 
 prop('C16', COMMON +
      'Decided: the producer registers notify_stream_closed only after re-reading `closed` in the same critical section, and PipeStream::drop sets `closed` and takes+wakes the slot in one critical section (LW1, LW2); '
@@ -214,7 +230,7 @@ prop('C16', COMMON +
      'a finished pipe releases its poll function (ORD-C11).',
      ['closed re-read before registering; drop sets closed and wakes in one section (LW1, LW2)', 'provenance of the waker woken under the lock (LW-prov, LO)', 'producer stops, references released (ORD-C16, ORD-C11)'],
      ['drop positions as executions'],
-     [(RW.lw, None, ['notify_stream_closed']), (RW.lw_prov, None), (RL.lo, None), (RO.c16, None), (RO.c11, None), (RE.eo, None, ['^PipeStream', '^<PipeStream', '^PipeContext', '^<PipeContext'])])
+     [(RW.lw, None, ['notify_stream_closed']), (RW.lw_prov, None), (RL.lo, None), (RO.c16, None), (RO.c11, None), (RE.eo, None, ['^PipeStream', '^<PipeStream', '^PipeContext', '^<PipeContext'])] + G_CORE)
 
 prop('C17', COMMON +
      'Decided (ORD-C17): every in-crate path that adds a pool thread tests `threads.len() < max` and pushes inside one critical section of the threads lock; the unconditional Scheduler::spawn_thread has no in-crate caller; '
